@@ -198,12 +198,78 @@ func c10Scenarios(tier string) []*Scenario {
 			}
 		}
 	}
+	for _, rev := range []bool{false, true} {
+		for _, revOrder := range []bool{false, true} {
+			rev, revOrder := rev, revOrder
+			b := 1
+			if thorough {
+				b = 2
+			}
+			scs = append(scs, &Scenario{
+				Name: fmt.Sprintf("c10/refusal-race/rev=%v/order=%v", rev, revOrder), Prop: "C10", Heavy: true,
+				Desc: fmt.Sprintf("graceful shutdown has been initiated on an idle tunnel (reverse=%v); a unary and a server-streaming RPC are then started: the refusal may reach the caller's end before the caller has finished starting the RPC; every synchronisation operation of the library is a scheduling point, scheduler family rev=%v, <= %d deviations", rev, revOrder, b),
+				Opt:  Options{Level: "sync", Bound: b, RevOrder: revOrder},
+				Run: func(w *World) {
+					t := w.OpenTunnel(TunCfg{Reverse: rev})
+					if t.StartErr != nil {
+						return
+					}
+					if rev {
+						w.StartFault(t, "gstop")
+						w.WaitUntil("gstop-effective", func() bool {
+							for _, th := range w.S.Threads {
+								if th.Name == "fault:gstop" {
+									return th.Done || (th.Parked && th.Kind == "wgwait")
+								}
+							}
+							return false
+						})
+					} else {
+						t.Handler.InitiateShutdown()
+					}
+					for i, shape := range []string{"Unary", "ServerStream"} {
+						a := StdWorkload(fmt.Sprintf("after%d", i), byte(20+i), shape, []int{3}, []int{3})
+						w.Scripts[a.Handler.ID] = &a.Handler
+						w.RunCall(t.Conn, &a.Call)
+					}
+					if rev {
+						w.StartFault(t, "stop")
+						t.AwaitEnd()
+						t.Cancel()
+						w.Drain()
+					} else {
+						t.Close()
+					}
+				},
+				Check: func(w *World, x *Exec) []Violation {
+					vs := NoHang(x, "C10")
+					if x.Hang {
+						vs[0].Sig = "shutdown:refusal-race:" + vs[0].Sig
+						return vs
+					}
+					for i := 0; i < 2; i++ {
+						id := fmt.Sprintf("after%d", i)
+						for _, e := range w.EventsOf("caller:" + id) {
+							term := (e.Op == "invoke") || (e.Op == "recv" && !e.OK()) || (e.Op == "new" && !e.OK())
+							if term && e.Code != "Unavailable" {
+								vs = append(vs, Violation{Prop: "C10", Rule: "later-rpcs-refused", Sig: "shutdown:refusal-race:wrong-result:" + e.Code, Detail: fmt.Sprintf("rpc %s started after the shutdown ended with %s(%s)\n%s", id, e.Code, e.Err, w.Outcome())})
+							}
+							if term {
+								break
+							}
+						}
+					}
+					return vs
+				},
+			})
+		}
+	}
 	return scs
 }
 
 func init() {
 	register(&PropDef{ID: "C10", Level: "model_checking",
-		Rule:      "in-flight workloads (subsets of size <= 2 of {U with the handler waiting, B mid-stream, CS blocked on the window}, or none) x InitiateShutdown (forward) / GracefulStop (reverse) at every quiescent point x 1-2 RPCs attempted afterwards x {flow control, revision zero}; quick: the shutdown alone at every point (D=1), thorough: + one further deviation, which interleaves the later RPCs' frames with the in-flight ones; then Stop; oracle: later RPCs end Unavailable and never reach a handler, RPCs accepted before the shutdown complete normally with all data, the tunnel stays up, GracefulStop returns once they finished, Stop returns after Serve with all handler contexts cancelled, nothing left behind",
+		Rule:      "in-flight workloads (subsets of size <= 2 of {U with the handler waiting, B mid-stream, CS blocked on the window}, or none) x InitiateShutdown (forward) / GracefulStop (reverse) at every quiescent point x 1-2 RPCs attempted afterwards x {flow control, revision zero}; quick: the shutdown alone at every point (D=1), thorough: + one further deviation, which interleaves the later RPCs' frames with the in-flight ones; then Stop; plus the refusal racing the start of the refused RPC with every synchronisation operation of the library as a scheduling point (both scheduler families); oracle: later RPCs end Unavailable and never reach a handler, RPCs accepted before the shutdown complete normally with all data, the tunnel stays up, GracefulStop returns once they finished, Stop returns after Serve with all handler contexts cancelled, nothing left behind",
 		Globals:   []func(*Scenario, *World, *Exec) []Violation{ProtoMonitor},
 		Scenarios: c10Scenarios})
 }
